@@ -33,6 +33,11 @@ pub assume_specification<I: Iterator> [Peekable::<I>::peek] (p: &mut Peekable<I>
         pk(old(p)).len() > 0 ==> r == Some(&pk(old(p))[0]),
         pk(old(p)).len() == 0 ==> r is None;
 
+// `chars.clone()` (lookahead): the copy has the same characters ahead (std's derive(Clone))
+pub assume_specification<I: Iterator + Clone> [<Peekable<I> as Clone>::clone] (p: &Peekable<I>) -> (r: Peekable<I>)
+    where I::Item: Clone
+    ensures pk(&r) == pk(p);
+
 // ---- UTF-8 length and display width of a character: uninterpreted tables with their ranges
 // (std char::len_utf8 is 1..=4; unicode-width's width() is None or 0..=2)
 pub uninterp spec fn clen(c: char) -> int;
@@ -52,8 +57,36 @@ fn width_or_0(c: char) -> (r: usize) ensures r as int == cwidth(c), r <= 2 { uni
 // '\'' <-> Single, extracted text above): routed to this stub (rule R5)
 spec fn quote_char(q: StringQuote) -> char { match q { StringQuote::Double => '"', StringQuote::Single => '\'' } }
 spec fn is_quote_spec(c: char, q: StringQuote) -> bool { c == quote_char(q) }
+// `c.try_into()` to a StringQuote (impl TryFrom<char> for StringQuote, extracted text above)
+#[verifier::external_body]
+fn char_to_quote(c: char) -> (r: Result<StringQuote, ()>)
+    ensures (r is Ok) == (c == '"' || c == '\''), r matches Ok(q) ==> c == quote_char(q)
+{ unimplemented!() }
 #[verifier::external_body]
 fn is_quote(c: char, q: StringQuote) -> (r: bool) ensures r == (c == quote_char(q)) { unimplemented!() }
+
+// ---- character classes used by the number / identifier scanners
+// unicode-xid's XID_Continue table: uninterpreted
+pub uninterp spec fn xid_continue(c: char) -> bool;
+#[verifier::external_body]
+fn is_id_continue(c: char) -> (r: bool) ensures r == xid_continue(c) { unimplemented!() }
+// std char::is_ascii_digit / is_ascii_hexdigit (assumed from std's documentation)
+spec fn ascii_digit(c: char) -> bool { '0' <= c <= '9' }
+spec fn ascii_hexdigit(c: char) -> bool { ('0' <= c <= '9') || ('a' <= c <= 'f') || ('A' <= c <= 'F') }
+#[verifier::external_body]
+fn char_is_ascii_digit(c: &char) -> (r: bool) ensures r == ascii_digit(*c) { unimplemented!() }
+#[verifier::external_body]
+fn char_is_ascii_hexdigit(c: &char) -> (r: bool) ensures r == ascii_hexdigit(*c) { unimplemented!() }
+// printable ASCII: one byte, one column
+spec fn plain(c: char) -> bool { 0x20 <= (c as u32) < 0x7f }
+// a run of plain characters: bytes == chars == columns
+proof fn lemma_plain_run(s: Seq<char>, n: int, col: int)
+    requires 0 <= n <= s.len(), forall|i: int| 0 <= i < n ==> plain(s[i]),
+    ensures bytes(s.take(n)) == n, newlines(s.take(n)) == 0, col_after(col, s.take(n)) == col + n,
+    decreases n
+{
+    if n == 0 { lemma_empty(s, col); } else { lemma_plain_run(s, n - 1, col); lemma_step(s, n - 1, col); }
+}
 
 // ---- what a scanner consumed, as functions of the consumed characters
 // number of bytes of the token text
@@ -123,6 +156,28 @@ proof fn lemma_delimiter_run(s: Seq<char>, a: int, b: int, col: int, q: StringQu
     if a < b {
         lemma_delimiter_run(s, a, b - 1, col, q);
         lemma_step(s, b - 1, col);
+    }
+}
+
+// `_` followed by k-1 identifier characters
+proof fn lemma_ignored(s: Seq<char>, k: int, col: int)
+    requires 1 <= k <= s.len(), s[0] == '_', forall|i: int| 1 <= i < k ==> s[i] != '\n' && s[i] != '\r',
+    ensures
+        col_after(col, s.take(k)) == col + 1 + wsum(s.skip(1).take(k - 1)),
+        newlines(s.take(k)) == 0,
+        bytes(s.take(k)) == clen('_') + bytes(s.skip(1).take(k - 1)),
+        clen('_') == 1,
+    decreases k
+{
+    axiom_clen('_');
+    if k == 1 {
+        lemma_empty(s, col); lemma_step(s, 0, col);
+        assert(s.skip(1).take(0) =~= Seq::<char>::empty());
+    } else {
+        lemma_ignored(s, k - 1, col);
+        lemma_step(s, k - 1, col);
+        lemma_step(s.skip(1), k - 2, col);
+        assert(s.skip(1)[k - 2] == s[k - 1]);
     }
 }
 
@@ -524,6 +579,83 @@ proof {
            &&& pk(final(chars)) == input.skip(k)                              // @consumes_a_prefix
            &&& r as int == k                                                // @count_is_number_of_chars
            &&& forall|i: int| 0 <= i < k ==> call_ensures(predicate, (input[i],), true) }),   // @only_matching_chars
+"""),
+
+        Fn(F, "fn is_decimal_digit", props=P, subst=[("c.is_ascii_digit()", "char_is_ascii_digit(&c)", 1)], spec=r"""
+    ensures r == (ascii_digit(c) || c == '_'), r ==> plain(c),
+"""),
+        Fn(F, "fn is_binary_digit", props=P, spec=r"""
+    ensures r == (c == '0' || c == '1' || c == '_'), r ==> plain(c),
+"""),
+        Fn(F, "fn is_octal_digit", props=P, spec=r"""
+    ensures r == (('0' <= c <= '7') || c == '_'), r ==> plain(c),
+"""),
+        Fn(F, "fn is_hex_digit", props=P, subst=[("c.is_ascii_hexdigit()", "char_is_ascii_hexdigit(&c)", 1)], spec=r"""
+    ensures r == (ascii_hexdigit(c) || c == '_'), r ==> plain(c),
+"""),
+        Fn(F, "fn is_whitespace", props=P, spec=r"""
+    ensures r == (c == ' ' || c == '\t'),
+"""),
+        Fn(F, "impl<'a> TokenLexer<'a> :: fn consume_ignored", props=P,
+           subst=[("c.len_utf8()", "len_utf8(c)", 1)],
+           after_open="let ghost input = pk(&chars); let ghost col0 = self.span.end.column as int;",
+           before=[("self.advance_line_utf8(char_bytes, char_count);", r"""proof {
+    let k = input.len() - pk(&chars).len();
+    assert forall|i: int| 1 <= i < k implies input[i] != '\n' && input[i] != '\r' by {
+        assert(input.skip(1)[i - 1] == input[i]);
+        assert(call_ensures(is_id_continue, (input.skip(1)[i - 1],), true));
+    }
+    lemma_ignored(input, k, col0);
+    lemma_bounds(input, k, col0);
+}"""),
+                   ("Token::Underscore\n", r"""proof { let k = input.len() - pk(&chars).len(); assert(self.scanned(old(self), input, k)); }""")],
+           spec=r"""
+    requires old(self).roomy(pk(&chars)), pk(&chars).len() > 0, pk(&chars)[0] == '_',
+        // identifier characters never are line breaks (XID_Continue contains no control characters)
+        forall|c: char| xid_continue(c) ==> c != '\n' && c != '\r',
+    ensures
+        // `_name`: the byte length is the UTF-8 length of the consumed characters (identifiers may be
+        // multi-byte), the column grows by their display width, the line stays
+        exists|n: int| final(self).scanned(old(self), pk(&chars), n) && n >= 1,                       // @token_covers_consumed_chars
+        final(self).span.end.line == old(self).span.end.line,
+        r == Token::Underscore,
+"""),
+
+        Fn(F, "impl<'a> TokenLexer<'a> :: fn parse_raw_string_start", props=P,
+           attrs=("verifier::loop_isolation(false)",),
+           subst=[("if let Ok(quote) = c.try_into() {", "if let Ok::<StringQuote, ()>(quote) = char_to_quote(c) {", 1)],
+           after_open="let ghost input = pk(&chars);",
+           loops={1: r"""
+            invariant
+                *self == *old(self),
+                input.len() < 0x0400_0000,
+                ({ let k = input.len() - pk(&chars).len();
+                   &&& 0 <= k <= input.len() && k == hash_count && hash_count < 256
+                   &&& pk(&chars) == input.skip(k)
+                   &&& forall|i: int| 0 <= i < k ==> input[i] == '#' }),
+            decreases pk(&chars).len(),
+"""},
+           loop_open={1: r"""proof {
+    let k = input.len() - pk(&chars).len();
+    if k < input.len() {
+        assert(input.skip(k)[0] == input[k]);
+        assert(input.skip(k).drop_first() =~= input.skip(k + 1));
+    }
+}"""},
+           spec=r"""
+    requires old(self).current_byte < 0x1000_0000, old(self).span.end.column < 0x1000_0000, pk(&chars).len() < 0x0400_0000,
+    ensures
+        // r#..#" : the `r` (already consumed by the caller), the hashes and the quote are one byte and
+        // one column each; anything else is not a raw string start and nothing moves
+        r is None ==> *final(self) == *old(self),                                                        // @not_a_raw_string_nothing_moves
+        r is Some ==> (exists|h: int| 0 <= h < 256 && h < pk(&chars).len()
+            && (forall|i: int| 0 <= i < h ==> pk(&chars)[i] == '#')
+            && (pk(&chars)[h] == '"' || pk(&chars)[h] == '\'')
+            && final(self).previous_byte == old(self).current_byte
+            && final(self).current_byte == old(self).current_byte + 2 + h
+            && final(self).span.start == old(self).span.end
+            && final(self).span.end.line == old(self).span.end.line
+            && final(self).span.end.column == old(self).span.end.column + 2 + h),                       // @covers_r_hashes_and_quote
 """),
     ],
     epilogue=r"""
